@@ -68,6 +68,11 @@ CALCS = [
     ("neutron", "print:energy_dependent_table", "from periodictable import nsf as _n\n_printed(_n.energy_dependent_table)"),
     ("xray", "calc:xray_sld_el", "pt.Cu.xray.sld(energy=8.0)"),
     ("neutron", "calc:iso_sld", "pt.Ni[58].neutron.sld()"),
+    # energy-dependent scattering lengths: one atom whose table row carries the 'E' flag (Gd) and two that have an
+    # energy table without the flag (Er, Lu) - at a wavelength where the table matters
+    ("neutron", "calc:neutron_Gd", "pt.neutron_sld('Gd2O3', density=7.4, wavelength=0.3)"),
+    ("neutron", "calc:neutron_Er", "pt.neutron_sld('Er', density=9.07, wavelength=0.3)"),
+    ("neutron", "calc:neutron_Lu", "pt.Lu.neutron.sld(wavelength=0.3)"),
 ]
 
 CANONICAL = ["get:el:covalent_radius", "get:el:crystal_structure", "get:el:neutron", "get:iso:neutron_activation",
@@ -244,7 +249,7 @@ class MemoModel(LazyModel):
 
 
 XRAY_ELEMENTS = ("H", "C", "N", "n", "O", "Si", "Fe", "Cu", "Gd", "Au", "U")
-COMPOUNDS = [("H2O", 1.0), ("D2O", 1.11), ("SiO2", 2.2), ("Gd2O3", 7.4), ("B4C", 2.52)]
+COMPOUNDS = [("Er2O3", 8.6), ("H2O", 1.0), ("D2O", 1.11), ("SiO2", 2.2), ("Gd2O3", 7.4), ("B4C", 2.52), ("Lu2O3", 9.4)]
 
 
 def digest_table(pt, T, order, groups=None):
@@ -268,8 +273,9 @@ def digest_table(pt, T, order, groups=None):
             for iso in (list(el)[::-1] if order else list(el)):
                 out.append(rd(lambda: (iso.neutron, getattr(iso, "nuclear_spin", None))))
         if T is pt.elements:
-            for c, d in COMPOUNDS:
+            for c, d in (COMPOUNDS[::-1] if order else COMPOUNDS):
                 out.append(rd(lambda: pt.neutron_scattering(c, density=d, wavelength=4.0)))
+                out.append(rd(lambda: pt.neutron_sld(c, density=d, wavelength=0.3)))
         return out
     def g_activation():
         out = []
@@ -336,7 +342,9 @@ def _unreverse(name, vals, T, pt):
         out = []
         for b in blocks[::-1]:
             out += b
-        return out + vals[i:]
+        tail = vals[i:]                      # two values per compound, compounds read in reverse order
+        pairs = [tail[j:j + 2] for j in range(0, len(tail), 2)][::-1]
+        return out + [v for p in pairs for v in p]
     return vals
 
 
@@ -437,7 +445,13 @@ def run(ctx):
     if can_obs != can_obs2 or can_dig != can_dig2:
         raise MachineryError("canonical history is not deterministic")
     if can_dig[0] != can_dig[1]:
-        raise MachineryError("canonical digest depends on read order: %r" % (can_dig,))
+        # the same values read in two different orders differ: that is itself a violation of the property
+        for (g, h0), (g1, h1) in zip(can_dig[0], can_dig[1]):
+            if h0 != h1:
+                acc.violation("digest-read-order:%s" % g, dict(history=list(CANONICAL), event=None, group=g, order=1),
+                              expected="values of group %s do not depend on the order in which they are read" % g,
+                              observed="ascending and descending read orders serve different values",
+                              standalone=snippet(CANONICAL, CANONICAL[0], dict((e.name, e) for e in model.events())))
     acc.info["max_events"] = len(model.events())
     acc.info["max_expansion_events"] = sum(1 for e in model.events() if e.expand)
     oracle = Oracle(model, acc, can_obs, can_dig)
